@@ -234,30 +234,72 @@ func PairSkeletons(c *Ctx, cfg, pkgA, pkgB string, typeMap map[string]string, no
 		}
 		return s
 	}
-	skel := func(fn *ssa.Function) []string {
-		d := apo.NewDescriber(fn)
-		a := apo.Analyze(fn, apo.AcceptSpec{})
-		set := map[string]bool{}
-		for _, b := range fn.Blocks {
-			for _, in := range b.Instrs {
-				switch x := in.(type) {
-				case ssa.CallInstruction:
-					if _, isB := x.Common().Value.(*ssa.Builtin); isB {
-						continue
-					}
-					n := apo.CalleeName(x.Common())
-					if strings.HasPrefix(n, "errors.") || strings.HasPrefix(n, "fmt.") {
-						continue
-					}
-					set[normalize(d.CallDesc(x.Common()))] = true
-				case *ssa.Store:
-					set[normalize("store "+d.Val(x.Addr)+" = "+d.Val(x.Val))] = true
-				}
+	// hasSibling: the other package defines a function of the same (mapped) name
+	hasSibling := func(f *ssa.Function, from, to string) bool {
+		n := shortFn(f)
+		if strings.HasPrefix(n, from+".") {
+			return p.Fn(to+"."+strings.TrimPrefix(n, from+".")) != nil
+		}
+		for ta, tb := range typeMap {
+			if from == pkgB {
+				ta, tb = tb, ta
+			}
+			pre := "(*" + from + "." + ta + ")."
+			if strings.HasPrefix(n, pre) {
+				return p.Fn("(*"+to+"."+tb+")."+strings.TrimPrefix(n, pre)) != nil
 			}
 		}
-		for _, cd := range a.Conds() {
-			set[normalize("cond "+cd)] = true
+		return false
+	}
+	skel := func(fn *ssa.Function) []string {
+		from, to := pkgA, pkgB
+		if strings.Contains(shortFn(fn), pkgB+".") {
+			from, to = pkgB, pkgA
 		}
+		set := map[string]bool{}
+		var walk func(f *ssa.Function, args []string, depth int)
+		walk = func(f *ssa.Function, args []string, depth int) {
+			d := apo.NewDescriber(f)
+			a := apo.Analyze(f, apo.AcceptSpec{})
+			sub := func(s string) string {
+				if args == nil {
+					return s
+				}
+				return apo.SubstParams(s, args)
+			}
+			for _, b := range f.Blocks {
+				for _, in := range b.Instrs {
+					switch x := in.(type) {
+					case ssa.CallInstruction:
+						if _, isB := x.Common().Value.(*ssa.Builtin); isB {
+							continue
+						}
+						n := apo.CalleeName(x.Common())
+						if strings.HasPrefix(n, "errors.") || strings.HasPrefix(n, "fmt.") {
+							continue
+						}
+						// a helper that exists on this side only (lines extracted in one of the two
+						// packages) counts through what it does
+						if g := x.Common().StaticCallee(); g != nil && !x.Common().IsInvoke() && depth < 2 && apo.Inlinable(g) && g != f &&
+							strings.Contains(shortFn(g), from+".") && !hasSibling(g, from, to) {
+							var as []string
+							for _, av := range x.Common().Args {
+								as = append(as, sub(d.Val(av)))
+							}
+							walk(g, as, depth+1)
+							continue
+						}
+						set[normalize(sub(d.CallDesc(x.Common())))] = true
+					case *ssa.Store:
+						set[normalize("store "+sub(d.Val(x.Addr))+" = "+sub(d.Val(x.Val)))] = true
+					}
+				}
+			}
+			for _, cd := range a.Conds() {
+				set[normalize("cond "+sub(cd))] = true
+			}
+		}
+		walk(fn, nil, 0)
 		var l []string
 		for s := range set {
 			l = append(l, s)
